@@ -63,11 +63,16 @@ Definition pyslice {A} (l : list A) (start stop : Z) : list A :=
 Definition norm_idx_neg (len i : Z) : Z :=
   if i <? 0 then (if i + len <? 0 then -1 else i + len)
   else (if len <=? i then len - 1 else i).
-Definition pyslice_rev (l : list Z) (start stop : Z) : list Z :=
+Definition pyslice_rev {A} (l : list A) (start stop : Z) : list A :=
   let len := Z.of_nat (length l) in
   let s := norm_idx_neg len start in
   let e := norm_idx_neg len stop in
-  map (fun i => nth (Z.to_nat (s - i)) l 0) (zrange (Z.to_nat (s - e))).
+  (* indices s, s-1, ..., e+1  =  reverse of l[e+1 : s+1] *)
+  rev (firstn (Z.to_nat (s - e)) (skipn (Z.to_nat (e + 1)) l)).
+
+(* np.arange(a, a + n) as integers (linear time, unlike zrange on large counts) *)
+Fixpoint zseq (n : nat) (a : Z) : list Z :=
+  match n with O => [] | S m => a :: zseq m (a + 1) end.
 
 (* ------------------------------------------------------------------ *)
 (* fscale(ns, si, one_sided):
@@ -75,7 +80,7 @@ Definition pyslice_rev (l : list Z) (start stop : Z) : list Z :=
      one_sided -> fsc ; else concatenate((fsc, -fsc[slice(-2 + (ns % 2), 0, -1)]))
    The model returns the bin numbers k; the frequency is k / ns / si. *)
 Definition fscale_bins (ns : Z) (one_sided : bool) : list Z :=
-  let fsc := zrange (Z.to_nat (ns / 2 + 1)) in
+  let fsc := zseq (Z.to_nat (ns / 2 + 1)) 0 in
   if one_sided then fsc
   else fsc ++ map Z.opp (pyslice_rev fsc (-2 + ns mod 2) 0).
 
